@@ -3,15 +3,16 @@ from vq.meta import _m
 _m(
     "C17",
     "exploration",
-    "Hypothesis draws a recipe: grid (H, W) in [1..28]^2 (sides 1-2 as a minority class) x wrap_around x mask (None | union/"
+    "Hypothesis draws a recipe: grid (H, W) in [3..28]^2, one case in ten with a side of 1 or 2, x wrap_around x mask (None | union/"
     "difference of up to 3+3 rectangles/discs, periodic shapes on periodic grids | thresholded smoothed seeded noise | "
     "explicit bit rows; optionally inverted, optionally largest component only; never empty) x field = sum of 1-3 terms "
-    "(ramp, quadratic, Gaussian bump, single harmonic, seeded band-limited Fourier sum; periodic terms preferred when "
-    "wrap_around) rescaled so that the largest |difference| over exactly the 4-neighbour pairs with both ends in the mask "
+    "(ramp, quadratic, Gaussian bump, single harmonic, seeded band-limited Fourier sum, seeded pixel-wise noise that "
+    "randomises the merge order; each normalised to unit largest step and weighted by +-[0.2,1]; periodic terms preferred "
+    "when wrap_around) rescaled so that the largest |difference| over exactly the 4-neighbour pairs with both ends in the mask "
     "(periodic pairs iff wrap_around) is frac*pi, frac in [0.05, 0.95], plus an offset in [-pi, pi] x route (direct "
     "unwrap_phase_2d_torch with float32/float64 input, wrapped or already-unwrapped, outside-mask values = field/zeros/"
     "noise | unwrap_bf_overlap_phase_torch on complex64 data embedded through bf_mask/mask_bf, one or two passes, "
-    "wrap_around default or explicit); separately the Poisson method is run for no-raise/finite/shape only.  A case is "
+    "wrap_around default or explicit); five strata (no mask / masked wrapped / masked already-unwrapped / bf route / Poisson) each get their own run; the Poisson method is run for no-raise/finite/shape only.  A case is "
     "NON-TRIVIAL when the wrap count k = round((truth - wrap(truth))/2pi) is not constant on at least one connected "
     "component of the mask (a wrap line has to be undone) and, if a mask is given, the mask has a hole or >= 2 connected "
     "components (mask=None cases with a wrap count as non-trivial; Poisson smoke cases never do); distinct = SHA-1 of the "
@@ -22,7 +23,7 @@ _m(
         "connected components come from the harness (scipy.sparse.csgraph on its own pixel-pair list, cross-checked "
         "against scipy.ndimage.label on bounded grids), never from quantem",
         "tolerance 1e-4*(1+max|k|) rad for 'constant' and twice that for 'integer multiple of 2pi' (two pixels' errors): "
-        "quantem adds float32(2*pi*k); measured clean-tree error <= 2e-6*(1+max|k|); a wrong unwrap is off by 2*pi",
+        "quantem adds float32(2*pi*k); measured clean-tree error <= 1.1e-6*(1+max|k|); a wrong unwrap is off by 2*pi",
         "values outside the mask are finite (wrapped field, zeros as the real caller passes, or noise); for already-"
         "unwrapped input they stay within the in-mask value range so the global-mean subtraction cannot cancel in float32",
         "no claim is checked on pixels outside the mask; the Poisson solver is outside the exactness claim",
